@@ -3,7 +3,7 @@ import copy
 from .. import common, gen, mergecorr, oracles, t2
 from . import base
 
-THEOREMS = ['C04_defaults', 'C04_exact', 'C04_exact_list', 'C04_remove_key', 'C04_clear', 'C04_merge_marks_refine', 'C04_merge_list_elementwise', 'C04_class_checker_sound', 'C04_without_marks_is_plain_update']
+THEOREMS = ['C04_defaults', 'C04_exact', 'C04_exact_list', 'C04_remove_key', 'C04_clear', 'C04_merge_marks_refine', 'C04_merge_list_elementwise', 'C04_class_checker_sound', 'C04_without_marks_is_plain_update', 'C04_exact_at_any_depth']
 PLAIN = gen.PROFILES['plain']
 
 
